@@ -443,7 +443,11 @@ def r_widths(ctx, run, rule):
     single = set(dw.get('plain', set())) | {w for w in dw.get('u1', set())}
     want = {2, 6, 8}
     ok_dec = dw.get('plain') == {2} and dw.get('u1', set()) <= {6, 8} and dw.get('u1')
-    (run.proved if ok_dec else run.violation)(rule, 'util::parse_escaped_string', 'decoder-widths', f'plain escapes consume 2 bytes, \\uXXXX 6, \\u{{XXXX}} 8 (pairs: two escapes): {dict((k, sorted(v)) for k, v in dw.items())}' if ok_dec else
+    if not ok_dec and dw.get('plain', {2}) == {2} and dw.get('u1', set()) <= {6, 8} and (not dw.get('u1') or set(dw) - {'plain', 'u1', 'u2'}):
+        run.undecided(rule, 'util::parse_escaped_string', 'decoder-widths', f'the \\u branch of the decoding pass does not read its hex digits in the shape this rule reads '
+                      f'(found {dict((k, sorted(v)) for k, v in dw.items())}; moved to a helper?): the bytes it consumes per escape are not decided')
+    else:
+      (run.proved if ok_dec else run.violation)(rule, 'util::parse_escaped_string', 'decoder-widths', f'plain escapes consume 2 bytes, \\uXXXX 6, \\u{{XXXX}} 8 (pairs: two escapes): {dict((k, sorted(v)) for k, v in dw.items())}' if ok_dec else
                                                f'the second pass consumes {dict((k, sorted(v)) for k, v in dw.items())} bytes per escape')
     for name, ws in sw.items():
         fn = 'jsonpath::parser::check_escaped' if name == 'check_escaped' else "parser::Parser::<'a>::parse_json_string"
@@ -458,7 +462,16 @@ def r_widths(ctx, run, rule):
     cg = ctx.cg
     callers = sorted(c for c, tg in cg.edges.items() if 'util::parse_string' in tg)
     want_callers = {"parser::Parser::<'a>::parse_json_string", 'jsonpath::parser::raw_string', 'jsonpath::parser::string'}
-    ok = set(callers) == want_callers
+    f_ = ctx.facts
+
+    def scanner_helper(c, seen=()):
+        # a private function reached only from the scanners (or from such helpers)
+        cb = f_.bodies.get(c)
+        if cb is None or cb.vis not in ('private', 'closure'):
+            return False
+        cs = [x for x, tg in cg.edges.items() if c in tg and x != c]
+        return bool(cs) and all(x in want_callers or (x not in seen and scanner_helper(x, seen + (c,))) for x in cs)
+    ok = all(c in want_callers or scanner_helper(c) for c in callers) and bool(callers)
     (run.proved if ok else run.violation)(rule, 'util::parse_string', 'callers', 'called only by the three scanners' if ok else f'parse_string is called from {callers}: a caller that has not pre-scanned the escapes can make the decoder index past its input')
 
 
@@ -530,7 +543,10 @@ def r09_7(ctx, run, rule='R09.7'):
                         if t[0] == 'bin' and t[1] in ('Gt', 'Ge', 'Lt', 'Le') and any(s[0] == 'hav' for s in subterms(t)) and any(x[0] == 'const' and x[1] in (1, 2) for x in (t[2], t[3])) \
                                 and not any(s[0] == 'len' or is_call(s, 'slice::len') for s in subterms(t)):
                             bad = True
-        (run.proved if n and not bad else run.violation)(rule, b.path, 'empty-literal', 'the empty string "" is accepted' if n and not bad else
+        if not n:
+            run.undecided(rule, b.path, 'empty-literal', 'no path of the quoted-string scanner builds its Ok result in the function itself (moved to a helper?): acceptance of "" is not decided here', f'{b.file}:{b.line}')
+        else:
+          (run.proved if n and not bad else run.violation)(rule, b.path, 'empty-literal', 'the empty string "" is accepted' if n and not bad else
                                                           'a successful return of the quoted-string scanner requires the closing quote to be beyond position 1: the empty literal "" is rejected', f'{b.file}:{b.line}')
 
 
